@@ -9,11 +9,6 @@ from .core import ROOT, Check, Driver, HarnessError, ddmin, proof_stage
 
 DRIVER = Driver("driver_c03", "Drivers/C03.lean")
 CMP_KEYS = ("tx", "direct", "b", "d")
-# The context object's `_inner` field is a boolean: when the object that opened the transaction is active three
-# times at once, the exit of its second block commits (a defect of /repo found while strengthening C03 against
-# seeded/C03-3; proposed_fixes/C03_reentry_depth.diff).  Model and code agree on it; such segments are not judged.
-# If known_findings.json lists this signature as a known finding, the check prints a KNOWN-FINDING line for it.
-DEEP_SIGNATURE = "C03:owner-object-active-three-times"
 
 
 def _assemble(case: dict, trace, stats, answers) -> dict:
@@ -22,10 +17,7 @@ def _assemble(case: dict, trace, stats, answers) -> dict:
     model = [txhist.fields(a) for a in answers]
     if any(a.startswith("bad-op") for a in answers):
         raise HarnessError(f"driver rejected a line of {case}")
-    # a segment is judged iff both provisos hold on it: NoDeadlineCrossed and reentryBounded (DESIGN section 8 "not judged")
-    ndc_only = {i: m["ndc"] == "T" for i, m in enumerate(model) if "ndc" in m}
-    ndc = {i: v and model[i].get("rb") == "T" for i, v in ndc_only.items()}
-    deep = any(m.get("rb") == "F" for m in model)
+    ndc = {i: m["ndc"] == "T" for i, m in enumerate(model) if "ndc" in m}
     diff = None
     for i, (a, m) in enumerate(zip(impl, model)):
         for k in CMP_KEYS:
@@ -34,41 +26,12 @@ def _assemble(case: dict, trace, stats, answers) -> dict:
                 break
         if diff:
             break
-    joined = False
-    if deep and diff is not None:
-        # Not judged, and tolerant: on a program that makes the owning object active three times at once the code may
-        # behave as the model of today's code does (boolean `_inner`: early commit) or join the blocks properly (a depth
-        # counter, proposed_fixes/C03_reentry_depth.diff) = the model's run of the program with the inner blocks erased
-        keep = _outermost_only(lines)
-        flat = [txhist.fields(a) for a in DRIVER.ask([f"case 1000 {txhist.TIMEOUT_TICKS}"] + [lines[i] for i in keep])[1:]]
-        if all(impl[i].get(k) == m.get(k) for i, m in zip(keep, flat) for k in CMP_KEYS):
-            diff, joined = None, True
     return {
-        "lines": lines, "impl": impl, "model": model, "ndc": ndc, "diff": diff, "stats": stats, "deep": deep,
-        "deep_joined": joined,
-        # the property evaluated without the re-entry proviso, for the record only (see DEEP_SIGNATURE)
-        "impl_bad_deep": [b for b in txhist.check_property(lines, impl, ndc_only) if b[0] == "C03"] if deep else [],
+        "lines": lines, "impl": impl, "model": model, "ndc": ndc, "diff": diff, "stats": stats,
         "impl_bad": txhist.check_property(lines, impl, ndc),
         "model_bad": txhist.check_property(lines, model, ndc),
         "trace": trace, "answers": answers,
     }
-
-
-def _outermost_only(lines: list[str]) -> list[int]:
-    """indices of the lines that remain when every inner enter/exit pair is erased (`flatten` of Lemmas/TxNest.lean)"""
-    keep, depth = [], 0
-    for i, l in enumerate(lines):
-        w = l.split()
-        if w[0] == "enter":
-            depth += 1
-            if depth > 1:
-                continue
-        elif w[0] == "exit" and depth > 0:
-            depth -= 1
-            if depth > 0:
-                continue
-        keep.append(i)
-    return keep
 
 
 def evaluate_many(cases: list[dict]) -> list[dict]:
@@ -197,8 +160,6 @@ def run_prop(chk: Check, prop: str) -> int:
     nseg = nseg_ndc = 0
     prop_hits: list = []
     corr_hits: list = []
-    ndeep = ndeep_bad = ndeep_joined = 0
-    deep_witness = None
     BATCH = 250
     stop = False
     for start in range(0, len(cases), BATCH):
@@ -223,13 +184,6 @@ def run_prop(chk: Check, prop: str) -> int:
                 distinct.add(json.dumps(case, sort_keys=True))
             if len(samples) < 3 and len(ev["stats"]) >= 3 and len(case["events"]) <= 12:
                 samples.append({"case": case, "impl": [o for _, o in ev["trace"]]})
-            if ev["deep"]:
-                ndeep += 1
-                ndeep_joined += ev["deep_joined"]
-                if ev["impl_bad_deep"]:
-                    ndeep_bad += 1
-                    if deep_witness is None or len(case["events"]) < len(deep_witness[0]["events"]):
-                        deep_witness = (case, ev["impl_bad_deep"][0])
             v = verdict(ev, prop)
             if v is not None:
                 # SEARCH (DESIGN section 5): a broken correspondence alone is not yet a failing input of the property;
@@ -241,11 +195,6 @@ def run_prop(chk: Check, prop: str) -> int:
     for origin, case in (prop_hits[:3] or corr_hits[:2]):
         found += 1
         report(chk, case, prop, origin)
-    if prop == "C03" and deep_witness is not None and any(
-            f.get("status") == "known" and f.get("signature") == DEEP_SIGNATURE for f in chk.known):
-        case, bad = deep_witness
-        chk.violation(f"step {bad[1]}: {bad[2]}", dict(case, origin="deep re-entry of the owning context object"),
-                      signature=DEEP_SIGNATURE)
     if proof is not None:
         chk.proof_broken(proof, found > 0)
     chk.coverage.update({
@@ -257,9 +206,8 @@ def run_prop(chk: Check, prop: str) -> int:
                 "of three SHARED context objects kept for the whole case (entered again nested in themselves, nested in each other, inside "
                 "a decorator body, and re-used sequentially for later outermost blocks), ended by commit / "
                 "raised exception / explicit tx.rollback() / tx.commit(), <= 14 commands per block, time advances inside) generated from "
-                "VERIF_SEED, configs facade and facade_secret; every 8th case lets TTLs elapse inside the block and every 16th lets the "
-                "object owning the transaction be active three times at once (both: model comparison only); plus the enumerated nesting "
-                "shapes (nesting_rule). "
+                "VERIF_SEED, configs facade and facade_secret; every 8th case lets TTLs elapse inside the block (model comparison only); the object "
+                "owning the transaction may be active three or four times at once; plus the enumerated nesting shapes (nesting_rule). "
                 "A case is non-trivial iff at least one of the interesting states listed in interesting_states_cases was reached; "
                 "distinct = distinct case JSON",
         "samples": samples,
@@ -269,9 +217,6 @@ def run_prop(chk: Check, prop: str) -> int:
                         "every block left normally / by a caught exception, a write after every block boundary, followed by a second "
                         "outermost block re-using the first block's object entered twice; quick tier: one mode per shape drawn from "
                         "VERIF_SEED, thorough tier: all three modes (exhaustive over this space)",
-        "deep_reentry_cases_not_judged": ndeep,
-        "deep_reentry_cases_where_code_contradicts_C03": ndeep_bad,
-        "deep_reentry_cases_where_code_joins_unlike_the_model": ndeep_joined,
         "exhaustive": bool(nexh),
         "exhaustive_cases": nexh,
         "exhaustive_rule": "thorough tier: 4 initial shapes of one key x all histories of <= 2 commands from an 11-command alphabet x 3 modes x {commit, exception}",
@@ -281,13 +226,11 @@ def run_prop(chk: Check, prop: str) -> int:
         "segments_satisfying_NoDeadlineCrossed": nseg_ndc,
         "comparisons": "per event: impl-tx = model-tx, impl-direct = model-direct, backend live view (values + deadlines + lock keys) "
                        "impl = model, direct view impl = model; on segments satisfying NoDeadlineCrossed additionally the property "
-                       "and reentryBounded additionally the property itself on the implementation's answers (and on the model's); "
+                       "additionally the property itself on the implementation's answers (and on the model's); "
                        "segments are syntactic (outermost enter .. matching exit), so a transaction ended early by an inner exit is a "
                        "violation of C03 (writes visible before the block ends / not rolled back)",
         "trusted_base": TRUSTED,
-        "partial": "one task and one Memory backend; a context object shared between tasks is not exercised; programs in which the object "
-                   "owning the transaction is active three times at once are compared with the model but not judged (the code, like the "
-                   "model, commits at the exit of the second block: proposed_fixes/C03_reentry_depth.diff); non-dyadic TTLs, more than 3 keys, blocks longer than 14 commands, the overlay's "
+        "partial": "one task and one Memory backend; a context object shared between tasks is not exercised; non-dyadic TTLs, more than 3 keys, blocks longer than 14 commands, the overlay's "
                    "own capacity of 1000 entries, delete_match/scan/get_match inside a transaction (C13) are not exercised",
     })
     chk.assumptions.extend(TRUSTED)
